@@ -409,16 +409,18 @@ def populate (e : Env) (s : State) (b : Body) : State × Response :=
       else (s', ⟨500, .populate view (some .internal), true, false⟩)
 
 /-- `/reset`: start every proxy, drop every toxic.  Go iterates a map: when a start fails
-with other proxies still unvisited the outcome depends on the iteration order (`nondet`). -/
+with other proxies still unvisited the outcome depends on the iteration order (`nondet`).
+`resetStep` is one iteration of the loop over the proxies. -/
+def resetStep (e : Env) (acc : State × Bool) (p : ProxyRec) : State × Bool :=
+  if !acc.2 then acc else
+  let cur := (acc.1.find p.name).getD p
+  if cur.enabled then (acc.1.replace { cur with toxics := [] }, true)
+  else match startProxy e acc.1 cur with
+    | some p' => (acc.1.replace { p' with toxics := [] }, true)
+    | none => (acc.1, false)
+
 def reset (e : Env) (s : State) : State × Response :=
-  let stepOne := fun (acc : State × Bool) (p : ProxyRec) =>
-    if !acc.2 then acc else
-    let cur := (acc.1.find p.name).getD p
-    if cur.enabled then (acc.1.replace { cur with toxics := [] }, true)
-    else match startProxy e acc.1 cur with
-      | some p' => (acc.1.replace { p' with toxics := [] }, true)
-      | none => (acc.1, false)
-  let (s', ok) := s.foldl stepOne (s, true)
+  let (s', ok) := s.foldl (resetStep e) (s, true)
   if ok then (s', ⟨204, .none, false, false⟩)
   else (s', ⟨500, .error .internal, true, s.length > 1⟩)
 
